@@ -120,6 +120,26 @@ theorem splash_is_documented_sum (nbrs : List (Nbr α)) :
   unfold splash
   rw [foldl_step_eq splashStep (fun nb => nb.m / nb.rho * nb.w * nb.f) (fun _ _ => rfl)]; ring
 
+/-- **user-supplied equation reading array constants** (`Interpolator(equations=…)`,
+`SPHEvaluator`): the probe equation returns `gain · Σⱼ (mⱼ/rho0ⱼ) Wᵢⱼ fⱼ` with
+`rho0ⱼ` the constant of the array neighbour `j` lives in and `gain` the constant
+of the destination array; with `gain = 1` and the per-particle density in place
+of `rho0` it is the 'sph' sum. -/
+theorem sph_const_is_documented_sum (gain : α) (nbrs : List (Nbr α)) :
+    sphConst gain nbrs = gain * sumOver (fun nb => nb.m / nb.rho * nb.w * nb.f) nbrs ∧
+    sphConst 1 nbrs = sph nbrs := by
+  have h : ∀ g : α, sphConst g nbrs = g * sumOver (fun nb => nb.m / nb.rho * nb.w * nb.f) nbrs := by
+    intro g
+    unfold sphConst
+    rw [foldl_step_eq (sphConstStep g) (fun nb => g * (nb.m / nb.rho * nb.w * nb.f))
+      (fun acc nb => by simp only [sphConstStep]; ring), sumOver_mul_left]
+    ring
+  refine ⟨h gain, ?_⟩
+  rw [h 1]
+  unfold sph
+  rw [foldl_step_eq sphStep (fun nb => nb.m / nb.rho * nb.w * nb.f) (fun _ _ => rfl)]
+  ring
+
 /-- 'splash_norm': `Σ_j V_j W(r_ij,h_j) f_j / Σ_j V_j W(r_ij,h_j)` above the
 threshold, the un-normalised sum otherwise -/
 theorem splash_norm_is_documented_sum (tol : α) (nbrs : List (Nbr α)) :
@@ -366,8 +386,8 @@ theorem evaluator_bindings_current (objs : List Nat) (ops : List Op)
       cases op with
       | evalUpdateArrays objs' =>
         exact ih hrest (step s (Op.evalUpdateArrays objs')) objs'
-          (by simp [step, evalUpdateParticleArrays, createNnps])
-          (by simp [step, evalUpdateParticleArrays, createNnps])
+          (by simp [step, evalUpdateParticleArrays, setArrays, createNnps])
+          (by simp [step, evalUpdateParticleArrays, setArrays, createNnps])
       | update =>
         exact ih hrest (step s Op.update) o0 (by simpa [step, updateOp] using h1)
           (by simpa [step, updateOp] using h2)
@@ -378,6 +398,45 @@ theorem evaluator_bindings_current (objs : List Nat) (ops : List Op)
       | updateArrays as => have := hops (Op.updateArrays as) (by simp); simp [isEvalOp] at this
   have h := gen (initEval objs) objs (by simp [initEval, createNnps]) (by simp [initEval, createNnps])
   simpa [interpolateReads] using h
+
+/-! ## constants: the evaluator reads the constants of the arrays currently bound -/
+
+/-- After ANY history following construction, the constants (`s_<const>[0]`,
+`d_<const>[0]`) the compiled loops read are those of the arrays of the latest
+`update_particle_arrays` (or of the constructor) and of the points object of the
+latest `set_interpolation_points` — the same objects whose per-particle
+properties are read. -/
+theorem constants_current (arrays : List Nat) (p : Nat) (ops : List Op)
+    (hops : ∀ op ∈ ops, op.isInterp = true) :
+    let r := interpolateReads (run (init arrays p) ops)
+    r.constants = lastArrays arrays ops ++ [lastPts p ops] ∧ r.constants = r.evaluated := by
+  have hc := run_constsBound (init arrays p) ops (constsBound_init arrays p)
+  have hb := bindings_current arrays p ops hops
+  simp only [interpolateReads] at hb ⊢
+  unfold ConstsBound at hc
+  exact ⟨by rw [hc]; exact hb.2.2.1, hc⟩
+
+/-- `SPHEvaluator`: the same after any history of `update_particle_arrays` /
+`update` / in-place changes. -/
+theorem evaluator_constants_current (objs : List Nat) (ops : List Op)
+    (hops : ∀ op ∈ ops, isEvalOp op = true) :
+    (interpolateReads (run (initEval objs) ops)).constants = lastEvalObjs objs ops := by
+  have hc := run_constsBound (initEval objs) ops (constsBound_initEval objs)
+  have hb := evaluator_bindings_current objs ops hops
+  simp only [interpolateReads] at hb ⊢
+  unfold ConstsBound at hc
+  rw [hc]; exact hb.1
+
+/-- The VALUE of a constant the loop of the `k`-th array reads is the one stored
+in the `k`-th currently bound array, whatever earlier arrays held (`cval o`: the
+value stored in object `o`; arbitrary, so replaced arrays may carry any values). -/
+theorem constant_values_current {γ : Type} (arrays : List Nat) (p : Nat) (ops : List Op)
+    (hops : ∀ op ∈ ops, op.isInterp = true) (cval : Nat → γ) (k : Nat) :
+    constRead (run (init arrays p) ops) cval k =
+      ((lastArrays arrays ops ++ [lastPts p ops])[k]?).map cval := by
+  have h := (constants_current arrays p ops hops).1
+  simp only [interpolateReads] at h
+  simp only [constRead, h]
 
 /-! ## staging: the source values the equations read are those of the requested property -/
 
@@ -505,6 +564,68 @@ theorem target_points_independent_of_layout {β : Type} [OfNat β 0] (x x' : NdV
   intro k hk
   exact he _ (inBounds_unravel _ _ (List.mem_range.mp hk))
 
+/-! ## the target particles' smoothing length; dtype of the caller's arrays -/
+
+/-- **Every target particle gets the largest real-particle smoothing length of
+the source arrays, as a double, whatever the dtype `β` of the caller's coordinate
+arrays** (any dtype whose `1` converts to `1`: float64, float32, int64, int32, …):
+when `_get_max_h_in_arrays` returns `H` (no source array is empty), the `h` array is
+`H` for each of the points, `H` bounds every source `h` from above, and `H` is
+the `h` of some source particle provided smoothing lengths are `> -1` (they are
+positive) and there is at least one source array. -/
+theorem target_h_is_max_source_h {β : Type} [OfNat β 1] (cast : β → α) (hcast : cast 1 = 1)
+    (hs : List (List α)) (xr : List β) (H : α) (hH : maxHInArrays hs = some H) :
+    createTargetH cast hs xr = some (List.replicate xr.length H) ∧
+    (∀ h ∈ hs, ∀ v ∈ h, v ≤ H) ∧
+    (hs ≠ [] → (∀ h ∈ hs, ∀ v ∈ h, -1 < v) → ∃ h ∈ hs, H ∈ h) := by
+  have hsp := maxHLoop_spec hs (-1) H hH
+  refine ⟨?_, hsp.2.1, ?_⟩
+  · simp only [createTargetH, hH, Option.map_some, targetH, scalarTimes, onesLike, List.map_map]
+    congr 1
+    rw [List.eq_replicate_iff]
+    refine ⟨by simp, ?_⟩
+    intro b hb
+    obtain ⟨_, _, rfl⟩ := List.mem_map.mp hb
+    simp [hcast]
+  · intro hne hpos
+    rcases hsp.2.2 with e | e
+    · exfalso
+      cases hs with
+      | nil => exact hne rfl
+      | cons h rest =>
+        -- the first array is not empty (else `maxHInArrays` is `none`)
+        cases h with
+        | nil => simp [maxHInArrays, maxHLoop, npMax] at hH
+        | cons v vs =>
+          have h1 := hsp.2.1 (v :: vs) (by simp) v (by simp)
+          have h2 := hpos (v :: vs) (by simp) v (by simp)
+          rw [e] at h1
+          exact absurd (lt_of_lt_of_le h2 h1) (lt_irrefl _)
+    · exact e
+
+/-- …so the smoothing length of the target particles does not depend on the
+dtype or the values of the coordinate arrays: two sets of `n` points, given in
+ANY two dtypes, get the same `h`. -/
+theorem target_h_independent_of_points {β β' : Type} [OfNat β 1] [OfNat β' 1]
+    (cast : β → α) (cast' : β' → α) (hc : cast 1 = 1) (hc' : cast' 1 = 1)
+    (hs : List (List α)) (xr : List β) (xr' : List β') (hn : xr'.length = xr.length) :
+    createTargetH cast' hs xr' = createTargetH cast hs xr := by
+  cases hH : maxHInArrays hs with
+  | none => simp [createTargetH, hH]
+  | some H =>
+    rw [(target_h_is_max_source_h cast hc hs xr H hH).1,
+      (target_h_is_max_source_h cast' hc' hs xr' H hH).1, hn]
+
+/-- The target particle made from element `idx` of a coordinate array of dtype
+`β` sits at the double `cast (x[idx])`, for every shape, memory layout and dtype:
+`result[idx]` (by `result_index_matches_point`, at `α`-valued views) is therefore
+the value at the caller's point converted to double. -/
+theorem target_coords_cast_index {β : Type} [OfNat β 0] (cast : β → α) (x : NdView β)
+    (idx : List Nat) (hidx : inBounds x.shape idx = true) :
+    (castRavel cast x)[ravelIndex x.shape idx]? = some (cast (x.elem idx)) := by
+  have hk := ravelIndex_lt x.shape idx hidx
+  simp [castRavel, ravelC, hk, unravel_ravelIndex x.shape idx hidx]
+
 /-! ## non-vacuity: concrete neighbour lists / histories meeting the hypotheses -/
 
 /-- fluid (object 1: `p`, `T`) and solid (object 2: `p` only, arriving with a used
@@ -548,9 +669,9 @@ example :
 example :
     let ops := [Op.mutate 1, Op.update, Op.updateArrays [5, 6], Op.setPoints 9, Op.mutate 5]
     interpolateReads (run (init [1, 2] 3) ops) =
-      ⟨[5, 6], [5, 6, 9], [5, 6, 9], 9, false⟩ ∧
+      ⟨[5, 6], [5, 6, 9], [5, 6, 9], 9, false, [5, 6, 9]⟩ ∧
     interpolateReads (run (init [1, 2] 3) (ops ++ [Op.update])) =
-      ⟨[5, 6], [5, 6, 9], [5, 6, 9], 9, true⟩ := by
+      ⟨[5, 6], [5, 6, 9], [5, 6, 9], 9, true, [5, 6, 9]⟩ := by
   constructor <;> decide +kernel
 
 /-- a 2×3 array held in Fortran order (strides 1, 2: the transposed view of a
@@ -576,6 +697,27 @@ example :
     let x : NdView ℚ := ⟨[1, 2, 1, 3], [0, 1, 0, 2], 0, [10, 11, 12, 13, 14, 15]⟩
     squeezeShape x.shape = [2, 3] ∧ unsqueeze x.shape [1, 2] = [0, 1, 0, 2] ∧
     interpolateSqueezedGet (fun p => p.x) x x x [1, 2] = some 15 ∧ x.elem [0, 1, 0, 2] = 15 := by
+  refine ⟨?_, ?_, ?_, ?_⟩ <;> decide +kernel
+
+/-- two source arrays with real-particle `h` lists `[3/10, 1/2]`, `[2/5]` and five
+target points given as INTEGERS (dtype `Int`, converted by `Int.cast`): every
+target particle gets `h = 1/2`, not `⌊1/2⌋ = 0` -/
+example :
+    maxHInArrays [[(3:ℚ)/10, 1/2], [2/5]] = some (1/2) ∧
+    createTargetH (fun i : Int => (i : ℚ)) [[(3:ℚ)/10, 1/2], [2/5]] [1, 2, 3, 4, 5] =
+      some [1/2, 1/2, 1/2, 1/2, 1/2] ∧
+    castRavel (fun i : Int => (i : ℚ)) ⟨[2, 2], [1, 2], 0, [1, 2, 3, 4]⟩ = [1, 3, 2, 4] := by
+  refine ⟨?_, ?_, ?_⟩ <;> decide +kernel
+
+/-- the arrays are replaced (objects 5, 6 for 1, 2) and the points too (9 for 3):
+the loop of the first array name then reads the constant stored in object 5
+(`1250`), not the one of object 1 (`1000`); 'sph' with `rho0` and a gain -/
+example :
+    let cval : Nat → ℚ := fun o => if o = 1 then 1000 else if o = 5 then 1250 else 1
+    let s := run (init [1, 2] 3) [Op.updateArrays [5, 6], Op.mutate 5, Op.update, Op.setPoints 9]
+    constRead (init [1, 2] 3) cval 0 = some 1000 ∧ constRead s cval 0 = some 1250 ∧
+    (interpolateReads s).constants = [5, 6, 9] ∧
+    sphConst (2:ℚ) [⟨1/2, 0, 0, 0, 0, 0, 0, 3, 4, 5⟩, ⟨1/4, 0, 0, 0, 1, 0, 0, 1, 2, 8⟩] = 23/4 := by
   refine ⟨?_, ?_, ?_, ?_⟩ <;> decide +kernel
 
 end PysphVerif.C14
